@@ -106,11 +106,12 @@ def hub(listener, P, state, timeout, delay_rng):
 def run(P, argv, timeout=600.0, delay_seed=None, env_extra=None, cwd=None, python=None, stdout_dir=None):
     """Returns dict(ok, exit_codes, error, collectives, stdout=[paths])"""
     python = python or sys.executable
-    tmp = tempfile.mkdtemp(prefix="esrv_mpi_")
+    tmp = tempfile.mkdtemp(prefix="esrv_mpi_", dir=os.environ.get("ESRV_MPI_TMPBASE") or None)
     addr = os.path.join(tmp, "hub.sock")
     state = {}
     outs = []
     procs = []
+    own_stdout = stdout_dir is None
     stdout_dir = stdout_dir or tmp
     env = dict(os.environ)
     env.update(env_extra or {})
@@ -166,6 +167,9 @@ def run(P, argv, timeout=600.0, delay_seed=None, env_extra=None, cwd=None, pytho
                 listener.close()
         except Exception:
             pass
+        if not own_stdout:
+            import shutil
+            shutil.rmtree(tmp, ignore_errors=True)      # only the hub socket lived there
 
 
 def main():
